@@ -15,7 +15,13 @@ pub enum WriteFault {
     Eio { at: usize },
     /// device full once `at` bytes of this record have been accepted
     Enospc { at: usize },
+    /// the caller's writer itself panics in its `nth` write call (a bug in caller code that
+    /// unwinds through serde and the crate); the process goes on afterwards
+    Panic { nth: usize },
 }
+
+/// Payload of the injected writer panic.
+pub struct InjectedWriterPanic;
 
 #[derive(Clone, Copy, Debug, PartialEq, Eq)]
 pub struct ReadFault {
@@ -188,6 +194,12 @@ impl<'a> Write for DiskWriter<'a> {
                     return Err(io::Error::new(ErrorKind::StorageFull, "simulated ENOSPC"));
                 }
                 n = n.min(at - self.accepted);
+            }
+            WriteFault::Panic { nth } => {
+                if self.calls == nth.max(1) {
+                    self.fault_fired = true;
+                    std::panic::panic_any(InjectedWriterPanic);
+                }
             }
         }
         self.disk.data.extend_from_slice(&buf[..n]);
